@@ -124,6 +124,26 @@ def probe_pairs(ctx, payload):
             ctx.violation("eq", "pairs", payload, dict(pair=[pa, pb], eq=repr(ge), ne=repr(gn), want_eq=want_eq), model_name,
                           f"{kind}/{'equal-ordinals' if equal_ord else 'different'}")
         ctx.case([model_name, pa, pb, "pair"], equal_ord)
+        # a deepcopy snapshot keeps the id: equality must still follow the VALUES once one of the two changes
+        if idx % 3 == 1:
+            import copy as _copy
+
+            snap = _copy.deepcopy(a)
+            ctx.ev("after-mutation")
+            try:
+                ok = (a == snap) is True and (a != snap) is False
+                snap.sigma = pa[1] + 0.75
+                ok = ok and (a == snap) is False and (a != snap) is True and (snap == a) is False
+                snap.sigma = pa[1]
+                snap.mu = pa[0] + 1.5
+                ok = ok and (a == snap) is False and (a != snap) is True
+                roster = _copy.deepcopy([[a, b]])
+                roster[0][1].mu = pb[0] - 3.25
+                ok = ok and (roster[0][1] == b) is False and (roster[0][0] == a) is True
+                if not ok:
+                    ctx.violation("after-mutation/eq-snapshot", "pairs", payload, dict(start=pa), model_name, kind)
+            except Exception as e:  # noqa: BLE001
+                ctx.violation("after-mutation/exception", "pairs", payload, dict(exc=repr(e)), model_name, kind)
         # the same objects after in-place changes (rate() itself updates ratings in place): ordinal() and the operators
         # must follow the CURRENT mu and sigma
         if idx % 3 == 0:
